@@ -120,7 +120,7 @@ def check_model(module, cfg, *, need_actions=(), workers=None, timeout=3600, env
     return r
 
 
-def dump_states(module, cfg, *, only=None, workers=None, timeout=3600, env=None, heap="4g", must_pass=True, skip_if=None, stride=None):
+def dump_states(module, cfg, *, only=None, workers=None, timeout=3600, env=None, heap="4g", must_pass=True, skip_if=None, stride=None, keep_if=None):
     """Run TLC with -dump and yield parsed states (dict var -> value).  Returns (TLCResult, list_of_states)."""
     d = scratch_dir("tlcdump_")
     try:
@@ -128,7 +128,7 @@ def dump_states(module, cfg, *, only=None, workers=None, timeout=3600, env=None,
         r = run(module, cfg, workers=workers, dump=path, timeout=timeout, env=env, heap=heap)
         if must_pass and not r.ok:
             raise TLCError("dump run %s/%s failed: %s\n%s" % (module, cfg, r.errors[:3], r.stdout[-4000:]))
-        states = list(tlaval.parse_dump(path + ".dump", only=only, skip_if=skip_if, stride=stride))
+        states = list(tlaval.parse_dump(path + ".dump", only=only, skip_if=skip_if, stride=stride, keep_if=keep_if))
         return r, states
     finally:
         shutil.rmtree(d, ignore_errors=True)
